@@ -12,7 +12,7 @@ use syn::Item;
 /// translated and tied
 pub const REQUIRED: &[&str] = &["flush_planned_base_size_increases", "flush_planned_growth_limit_increases", "initialize_track_sizes", "find_size_of_fr", "stretch_auto_tracks"];
 /// attempted; what leaves the fragment is reported in a comment of the generated file
-pub const OPTIONAL: &[&str] = &["maximise_tracks", "distribute_space_up_to_limits"];
+pub const OPTIONAL: &[&str] = &[]; // `maximise_tracks`, `distribute_space_up_to_limits`: see tracks2.rs (Generated/TrackSizing2.lean)
 
 pub fn extract(repo: &str, w: &World, reg: &mut Reg) -> Result<String, String> {
     let env = CfgEnv::default_build();
